@@ -26,6 +26,7 @@ structure LEdit where
   tailCode : Bool                    -- the patch's last non-empty block is code
   exprs : List (Nat × String × Int × List Nat)   -- patch expressions: offset in `ins`, symbol name, addend, attrs
   exprSizes : List (Nat × Nat)       -- offset in `ins`, size
+  cfi : List (Nat × String) := []    -- the patch's own CFI directives: offset in `ins`, directive text
   deriving Repr, Inhabited
 
 /-- position of a block inside its section: interval base + block offset -/
